@@ -55,6 +55,11 @@ type V struct {
 	// reachable twice).  Only completed pointers can be shared, so no cycle arises.
 	// If fewer exist, the pointer is built from E as usual.
 	Share int `json:"share,omitempty"`
+	// Interior > 0 on a pointer value that is a struct field: the pointer is the address of the
+	// (Interior-1)-th field of the same struct, a by-value field of the pointee type declared
+	// earlier (an interior pointer; with field 0 it equals the address of the enclosing object).
+	// If that field does not fit, the pointer is built from E as usual.
+	Interior int `json:"interior,omitempty"`
 	// NegZero: the float value is negative zero (F cannot carry it through JSON's omitempty)
 	NegZero bool `json:"negzero,omitempty"`
 	// NaN: the float value is NaN (JSON cannot carry it)
@@ -269,6 +274,10 @@ func fill(ctx *buildCtx, dst reflect.Value, v V) {
 			f := dst.Field(i)
 			if !f.CanSet() {
 				f = reflect.NewAt(f.Type(), unsafe.Pointer(f.UnsafeAddr())).Elem()
+			}
+			if j := v.E[i].Interior - 1; j >= 0 && j < i && f.Kind() == reflect.Ptr && !v.E[i].Nil && dst.CanAddr() && dst.Field(j).Type() == f.Type().Elem() {
+				f.Set(reflect.NewAt(f.Type().Elem(), unsafe.Pointer(dst.Field(j).UnsafeAddr())))
+				continue
 			}
 			fill(ctx, f, v.E[i])
 		}
